@@ -260,8 +260,10 @@ def window_rule(ctx, facts, cfg):
         d = nm[1] - p0
         lo, hi = C.bounds(d)
         width_one = nm[2].is_const() and nm[2].c == 1
-        if lo != 1:
-            problems.append('the first byte compared lies %s byte(s) behind the length byte (must be 1: the byte right after it)' % lo)
+        # the window may start at the length byte itself (comparing the two length bytes as well is an exact comparison: they are
+        # below the ASCII letters) or right behind it; it must end with the last byte of the label
+        if lo not in (0, 1):
+            problems.append('the first byte compared lies %s byte(s) behind the length byte (must be 0 or 1: the length byte or the byte right after it)' % lo)
         if width_one:
             if not C.entails(le(d, lab.e)):
                 problems.append('bytes further than label_len behind the length byte can be compared')
@@ -270,8 +272,10 @@ def window_rule(ctx, facts, cfg):
             if t_.infeasible():
                 problems.append('the last byte of the label (length byte + label_len) is never compared')
         else:
-            if C.bounds(nm[2] - lab.e) != (0, 0):
-                problems.append('the compared slice is %s byte(s) long relative to label_len (must be exactly label_len)' % (C.bounds(nm[2] - lab.e),))
+            if hi != lo:
+                problems.append('the start of the compared slice is not fixed relative to the length byte (%s..%s)' % (lo, hi))
+            if C.bounds(d + nm[2] - lab.e) != (1, 1):
+                problems.append('the compared slice ends %s byte(s) behind the length byte relative to label_len (must end exactly with the last byte of the label, at label_len)' % (C.bounds(d + nm[2] - lab.e - 1),))
         # same distance from the end on the source side: src_pos = name_pos - (name.len() - source.len())
         if ln_name is not None and ln_src is not None and isinstance(ln_name[0], Int) and isinstance(ln_src[0], Int):
             if C.bounds(sr[1] - (nm[1] - (ln_name[0].e - ln_src[0].e))) != (0, 0):
